@@ -361,11 +361,33 @@ class CExec:
                 # (0/1) & v  ==  (v odd) if bit else 0
                 r = z3.If(bb.b, o.t % 2, z3.IntVal(0))
                 return CV(ty, r, b=z3.And(bb.b, o.t % 2 == 1))
+            for c, o in ((xv, y), (yv, x)):
+                if c is not None and c > 0 and (not ty.signed or c <= ty.max):
+                    # general non-negative constant mask: sum over its runs of set bits [lo, lo+len):
+                    # ((v div 2^lo) mod 2^len) * 2^lo   (two's complement; lemma and-mask-runs in contracts/idioms.py)
+                    r, k = z3.IntVal(0), 0
+                    while (1 << k) <= c:
+                        if c & (1 << k):
+                            lo = k
+                            while c & (1 << k):
+                                k += 1
+                            r = r + ((o.t / (1 << lo)) % (1 << (k - lo))) * (1 << lo)
+                        else:
+                            k += 1
+                    return CV(ty, r, sym=("and", x, y))
         if op == "|" and (x.b is not None or y.b is not None):
             # v | bit: sets bit 0 (v even: v+1, no carry; v odd: v) -- two's complement, any width/sign
             bb, o = (x, y) if x.b is not None else (y, x)
             return CV(ty, z3.If(bb.b, z3.If(o.t % 2 == 0, o.t + 1, o.t), o.t), sym=("or", x, y))
         if op == "|":
+            # semantic idiom decided by the solver under the current path: one operand is a multiple of 2^k and the
+            # other lies in [0, 2^k) (disjoint bits)  =>  x | y == x + y   (lemma or-disjoint in contracts/idioms.py)
+            from .core import check_sat as _cs
+            for u, v in ((x, y), (y, x)):
+                for k in range(1, min(ty.bits, 33)):
+                    cond = z3.And(u.t % (1 << k) == 0, u.t >= 0, v.t >= 0, v.t < (1 << k))
+                    if _cs(list(st.path) + [z3.Not(cond)], 2) == z3.unsat:
+                        return CV(ty, u.t + v.t, sym=("or", x, y))
             # exact when one operand is zero; otherwise the island
             isl = self.island(op, x, y, ty)
             return CV(ty, z3.If(x.t == 0, y.t, z3.If(y.t == 0, x.t, isl)), sym=("or", x, y))
@@ -899,6 +921,26 @@ class CExec:
         if name in ("fmod", "fmodf"):
             x, y = self.ev(st, argn[0]), self.ev(st, argn[1])
             return CV(ty, self.fmod(st, x.t, y.t, ty))
+        if name in ("memcpy", "__builtin_memcpy", "__builtin___memcpy_chk"):
+            d, s_, cnt = self.ev(st, argn[0]), self.ev(st, argn[1]), self.ev(st, argn[2])
+            for extra in argn[3:]:
+                self.ev(st, extra)
+            if not (isinstance(d, Ptr) and isinstance(s_, Ptr) and d.obj in st.objs and s_.obj in st.objs):
+                raise OutOfSubset("memcpy on non-modelled pointers")
+            od, os_ = st.objs[d.obj], st.objs[s_.obj]
+            if od.length is None or os_.length is None:
+                raise OutOfSubset("memcpy on an object of unknown extent")
+            n_ = cnt.t
+            self.oblige(st, "ub", "memcpy.dst_in_bounds." + d.obj, z3.And(n_ >= 0, d.off >= 0, d.off + n_ <= od.length), n)
+            self.oblige(st, "ub", "memcpy.src_in_bounds." + s_.obj, z3.And(s_.off >= 0, s_.off + n_ <= os_.length), n)
+            if d.obj == s_.obj:
+                self.oblige(st, "ub", "memcpy.no_overlap", z3.Or(n_ == 0, d.off + n_ <= s_.off, s_.off + n_ <= d.off), n)
+            self.assumptions.add("memcpy(d, s, n) copies n elements (C11 7.24.2.1); modelled on element offsets of byte arrays")
+            i = z3.Int("i!memcpy")
+            src_arr, dst_arr = st.mem[s_.obj], st.mem[d.obj]
+            st.mem[d.obj] = z3.Lambda([i], z3.If(z3.And(i >= d.off, i < d.off + n_),
+                                                 z3.Select(src_arr, i - d.off + s_.off), z3.Select(dst_arr, i)))
+            return d
         if name in ("abs", "labs", "llabs"):
             x = self.ev(st, argn[0])
             return self.fit(st, ty, z3.If(x.t >= 0, x.t, -x.t), n, "abs")
@@ -1410,6 +1452,31 @@ class CExec:
             else:
                 raise OutOfSubset("stray %s at function level" % o[0])
         return res
+
+    def decl_ids(self):
+        """name -> (decl id, type) of every parameter and local variable of the function"""
+        out = {}
+
+        def walk(x):
+            if isinstance(x, dict):
+                if x.get("kind") in ("VarDecl", "ParmVarDecl") and x.get("name"):
+                    out.setdefault(x["name"], (x["id"], node_type(x)))
+                for c in x.get("inner", []) or []:
+                    walk(c)
+        walk(self.func)
+        return out
+
+    def run_fragment(self, st, stmt, values):
+        """execute one statement of the function from a state in which the named variables hold `values`"""
+        ids = self.decl_ids()
+        for nm, v in values.items():
+            if nm not in ids:
+                raise StaleContract("variable %s not found in %s" % (nm, self.fname))
+            st.vars[ids[nm][0]] = v
+            st.names[ids[nm][0]] = nm
+        for nm, (i, _t) in ids.items():
+            st.names.setdefault(i, nm)
+        return self.exec_stmt(st, stmt), ids
 
     def param_types(self):
         return [(c.get("name", "?"), node_type(c)) for c in self.func.get("inner", []) if c["kind"] == "ParmVarDecl"]
